@@ -312,6 +312,20 @@ _LINE = re.compile(r"^(\d+)\s+(\w+)\((.*)$")
 _CWD = re.compile(r"AT_FDCWD<[^>]*>")
 
 
+_FDPATH = re.compile(r"\d+<([^>]*)>")
+_QUOTED = re.compile(r'"((?:[^"\\]|\\.)*)"')
+FD_ONLY = {"write", "pwrite64", "writev", "sendfile", "copy_file_range", "fsync", "fdatasync", "ftruncate", "fchmod"}
+
+
+def _touches(name, shown, scn_dir):
+    """Does this call refer to the scenario directory?  Only fd annotations count for calls that carry data
+    (a write to stdout may *mention* the path), path arguments count for the rest."""
+    paths = _FDPATH.findall(shown)
+    if name not in FD_ONLY:
+        paths += _QUOTED.findall(shown)
+    return any(p == scn_dir or p.startswith(scn_dir + "/") for p in paths)
+
+
 def parse_strace(text: str, scn_dir: str, orig_names):
     """-> (points, killed_line_touches, main_pid).  A point is a dict(sys, n, idx, args) for every call of the
     main process that touches the scenario directory (ordinals n count ALL calls of that syscall name in that
@@ -331,7 +345,7 @@ def parse_strace(text: str, scn_dir: str, orig_names):
             continue
         ordinals[(pid, name)] += 1
         shown = _CWD.sub("AT_FDCWD", rest)
-        if scn_dir + "/" not in shown and ('"' + scn_dir + '"') not in shown:
+        if not _touches(name, shown, scn_dir):
             continue
         if "O_DIRECTORY" in shown:
             continue
@@ -402,7 +416,7 @@ def scenarios(draw, tier, inject):
     if inject == "inproc":
         case["entry"] = draw(st.sampled_from(["persist_changes", "persist_changes", "persist_changes", "lint_paths"]))
     else:
-        case["sequences"] = nfiles == 1 or tier != "quick"
+        case["sequences"] = True  # quick: pinned() switches it off for every other scenario (cost)
     return case
 
 
@@ -422,7 +436,9 @@ class C26(Check):
     level = "fault_enumeration"
     shrink_fields = ()
     rule = (
-        "A case is a Hypothesis-drawn scenario: 1-3 files in one directory (SQL whose LT01 fix is known by "
+        "A case is a Hypothesis-drawn scenario (in-process scenarios: per-shard generation; strace scenarios: a "
+        "fixed-length list drawn from the same strategy under a seed derived from VERIF_SEED and dealt round-robin "
+        "to the shards, 8 in quick / 240 in thorough): 1-3 files in one directory (SQL whose LT01 fix is known by "
         "construction: widened blanks between code chunks; literals/comments with non-ASCII payload), "
         "encoding utf-8 / utf-8-sig / utf-16 / latin-1 (explicit `encoding`, or autodetect for BOM/ASCII files), "
         "mode bits from {644,600,640,664,755,444,400,666}, fixed-suffix or none, some files without any violation. "
@@ -483,7 +499,7 @@ class C26(Check):
             os.remove(scn.path("a.sql"))
             assert "target-missing" in [k for k, _ in judge(scn, "kill")]
             log = ('7 openat(AT_FDCWD</x/w>, "/y/lib.so", O_RDONLY) = 3\n'
-                   '7 write(1</dev/null>, "hi", 2) = 2\n'
+                   '7 write(1</dev/null>, "== [/x/w/a.sql] FAIL", 20) = 20\n'
                    '7 openat(AT_FDCWD</x/w>, "/x/w/a.sql", O_RDONLY|O_CLOEXEC) = 3</x/w/a.sql>\n'
                    '7 openat(AT_FDCWD</x/w>, "/x/w/a.sqlzz.sql", O_RDWR|O_CREAT|O_EXCL, 0600) = 3</x/w/a.sqlzz.sql>\n'
                    '7 write(3</x/w/a.sqlzz.sql>, "S", 1) = 1\n'
@@ -493,18 +509,42 @@ class C26(Check):
         finally:
             shutil.rmtree(base, ignore_errors=True)
 
+    def pinned(self, tier):
+        """The strace scenarios: drawn by Hypothesis from the same strategy under a seed derived from VERIF_SEED,
+        as a fixed-length list, so that every shard gets the same number of (expensive) strace scenarios."""
+        import hypothesis
+        from hypothesis import HealthCheck, Phase, given, settings
+
+        n = 8 if tier == "quick" else 240
+        cases = []
+
+        @hypothesis.seed(int(os.environ.get("VERIF_SEED", "1") or 1) * 7919 + 26)
+        @settings(max_examples=n + 8, database=None, deadline=None, derandomize=False, phases=[Phase.generate],
+                  suppress_health_check=list(HealthCheck))
+        @given(scenarios(tier, "strace"))
+        def collect(case):
+            cases.append(case)
+
+        collect()
+        # distinct scenarios only (Hypothesis may repeat its simplest example)
+        seen, uniq = set(), []
+        for c in cases:
+            k = repr(c)
+            if k not in seen:
+                seen.add(k)
+                uniq.append(c)
+        uniq = uniq[:n]
+        if tier == "quick":
+            # fixed schedule, not a random choice: two-fault sequences for single-file scenarios at even positions
+            for i, c in enumerate(uniq):
+                c["sequences"] = len(c["files"]) == 1 and i % 2 == 0
+        return uniq
+
     def strategy(self, tier):
-        counter = itertools.count()
-        period = 8 if tier == "quick" else 5
-
-        def pick(i):
-            return scenarios(tier, "strace" if i % period == 0 else "inproc")
-
-        # deterministic schedule: the k-th example of a shard is a strace scenario when k % period == 0
-        return st.builds(lambda: next(counter)).flatmap(pick)
+        return scenarios(tier, "inproc")
 
     def examples(self, tier):
-        return 8 if tier == "quick" else 100
+        return 10 if tier == "quick" else 250
 
     def budget_s(self, tier):
         return 600.0 if tier == "quick" else 2400.0
@@ -731,6 +771,8 @@ class C26(Check):
             if not fired:
                 state["misfired"] += 1
                 out.label("strace-misfire")
+                state.setdefault("misfire_notes", []).append(
+                    {"injects": list(injects), "rc": rc_, "tail": [ln[:160] for ln in text_.splitlines()[-4:]]})
                 return text_
             state["executed"] += 1
             out.label("fp:strace/%s/%s%s" % (sys_, fault, "/after-rename-error" if after else ""))
@@ -774,7 +816,9 @@ class C26(Check):
                     if q["sys"] == p["sys"]:
                         state["misfired"] += 1  # cannot address two ordinals of one syscall with different faults
                         continue
-                    for fault, how in [("EIO", "error"), ("KILL", "kill")]:
+                    faults2 = [("EIO", "error")] + ([("ENOSPC", "error")] if q["sys"] in DATA_SYSCALLS else []) + [
+                        ("KILL", "kill")]
+                    for fault, how in faults2:
                         spec = {"sys": p["sys"], "n": p["n"], "fault": "EIO",
                                 "then": {"sys": q["sys"], "n": q["n"], "fault": fault}}
                         if only and only.get("then") != spec["then"]:
@@ -783,6 +827,8 @@ class C26(Check):
                         one([first, clause], how, q["sys"], fault, True, after="rename-error", only_spec=spec)
         out.nontrivial = state["nt"]
         out.info = {"syscalls": [(p["sys"], p["n"]) for p in points], "fault_runs": state["executed"]}
+        if state.get("misfire_notes"):
+            out.info["misfires"] = state["misfire_notes"][:3]
         if only:
             out.label("narrowed-replay")
         elif state["misfired"] == 0 and not other and state["executed"] == state["planned"]:
@@ -797,13 +843,22 @@ class C26(Check):
         if how == "kill":
             if not any("killed by SIGKILL" in ln for ln in lines):
                 return False
-            # the call the process died in is logged as `name(args) = ?`
+            # the call the process died in is the last call logged for the main process: `name(args) = ?`, or
+            # `name(args <unfinished ...>` followed by `<... name resumed>) = ?` when another thread died first
+            main_pid, last = None, None
             for ln in lines:
-                if ln.rstrip().endswith("= ?") and (" " + sys_ + "(") in ln and scn.dir in _CWD.sub("AT_FDCWD", ln):
-                    return True
-            return False
+                m = _LINE.match(ln)
+                if not m or "resumed>" in ln:
+                    continue
+                if main_pid is None:
+                    main_pid = m.group(1)
+                if m.group(1) == main_pid:
+                    last = ln
+            if last is None or not (last.rstrip().endswith("= ?") or "<unfinished ...>" in last):
+                return False
+            return (" " + sys_ + "(") in last and _touches(sys_, _CWD.sub("AT_FDCWD", last), scn.dir)
         for ln in lines:
-            if "(INJECTED)" in ln and (" " + sys_ + "(") in ln and scn.dir in _CWD.sub("AT_FDCWD", ln):
+            if "(INJECTED)" in ln and (" " + sys_ + "(") in ln and _touches(sys_, _CWD.sub("AT_FDCWD", ln), scn.dir):
                 return True
         return False
 
